@@ -7,7 +7,8 @@ OBLIGATIONS = ['Yalafi.C15_mapMatch_total', 'Yalafi.C15_mapMatch_in_file', 'Yala
                'Yalafi.C15_sort_checks_offsets',
                # every reported location lies inside the file (Model/Reports.lean, correspondence: corr_reports.py)
                'Yalafi.C15_located_in_file', 'Yalafi.C15_report_in_file', 'Yalafi.C15_located_char', 'Yalafi.C15_mapped_report_in_file',
-               'Yalafi.C15_zero_length_mapped', 'Yalafi.C15_zero_length_report']
+               'Yalafi.C15_zero_length_mapped', 'Yalafi.C15_zero_length_report',
+               'Yalafi.C15_every_location_in_file_e2e', 'Yalafi.C15_shell_dichotomy_e2e', 'Yalafi.C15_every_location_in_file_current']
 
 DOCS = ['This is a testx.\nSecond line.\n',
         'Text \\footnote{Deep note here} more $x$ text.\n\nNext \\textbf{par} ends\n',
